@@ -90,7 +90,7 @@ func (h *seqHistory) compare(what string) (string, error) {
 	}
 	if impl != m && !h.failed {
 		// point at the first differing section
-		ki, km := hx.KV(impl), hx.KV(m)
+		ki, km := stateSections(impl), stateSections(m)
 		sec := ""
 		for _, k := range []string{"devices", "inbox", "outbox", "emitted", "published"} {
 			if ki[k] != km[k] {
@@ -101,6 +101,26 @@ func (h *seqHistory) compare(what string) (string, error) {
 		h.fail("mismatch", "pipe-state:"+sec, "after "+what, sec+"="+ki[sec], sec+"="+km[sec])
 	}
 	return impl, nil
+}
+
+// stateSections splits "devices=… inbox=… outbox=… emitted=… published=…" (sections contain spaces).
+func stateSections(s string) map[string]string {
+	keys := []string{"devices", "inbox", "outbox", "emitted", "published"}
+	res := map[string]string{}
+	for i, k := range keys {
+		a := strings.Index(s, k+"=")
+		if a < 0 {
+			continue
+		}
+		b := len(s)
+		if i+1 < len(keys) {
+			if x := strings.Index(s, " "+keys[i+1]+"="); x >= 0 {
+				b = x
+			}
+		}
+		res[k] = s[a+len(k)+1 : b]
+	}
+	return res
 }
 
 func runPipeSeq(c *ctx) error {
@@ -154,10 +174,8 @@ func runPipeSeq(c *ctx) error {
 				copy(d.apps.Key[:], r.Key16())
 				d.addr = r.Uint32()
 				if r.Intn(3) == 0 {
-					d.addr = sharedAddr // several devices on one DevAddr
-					if r.Intn(3) == 0 && i > 0 && !h.devs[i-1].otaa {
-						d.nwk = h.devs[i-1].nwk // ... even with the same key
-					}
+					d.addr = sharedAddr // several devices on one DevAddr (different keys; the same-key case,
+					// where one frame starts two concurrent downlink chains, runs under the gate controller: engine pipectl)
 				}
 				if r.Intn(4) == 0 {
 					d.addr |= 0x80000000
@@ -470,6 +488,7 @@ func runPipeSeq(c *ctx) error {
 					d.nwk, d.apps, d.addr, d.joined, d.fcntUp = sd.NwkSKey, sd.AppSKey, sd.DevAddr.ToUint32(), true, 0
 				}
 			case ek == 18 && r.Intn(3) == 0: // restart at a quiescent point
+				rig.carry = rig.takePublished()
 				if err := rig.restart(); err != nil {
 					return err
 				}
@@ -514,7 +533,7 @@ func runPipeSeq(c *ctx) error {
 
 // downlinkOracles checks what left the server in this step against the Spec device (C06/C07/C09 basics).
 func (h *seqHistory) downlinkOracles(impl string) {
-	kv := hx.KV(impl)
+	kv := stateSections(impl)
 	if kv["emitted"] == "-" || kv["emitted"] == "" {
 		return
 	}
